@@ -40,6 +40,7 @@ fn main() {
             "ASM" => asm::run_asm(&nums),
             "DBG" => dbg::run_dbg(&nums),
             "DBGT" => dbg::run_dbgt(&nums),
+            "DBGS" => dbg::run_dbgs(&nums),
             "C20" => edit::run_c20(&nums),
             "C14" => cmd::run_c14(&nums),
             other => panic!("unknown case kind {other}"),
